@@ -111,7 +111,9 @@ pub fn check_message(m: &SMsg, prefix: &[u8], family: &'static str, cx: &mut Cx)
             0 => "message with 0 AVPs (ZLB)",
             1 => "message with 1 AVP",
             2..=6 => "message with 2..6 AVPs",
-            _ => "message with > 6 AVPs",
+            7..=255 => "message with 7..255 AVPs",
+            256..=1023 => "message with 256..1023 AVPs",
+            _ => "message with >= 1024 AVPs",
         });
         cx.class(match e.len() {
             0..=255 => "message <= 255 octets",
@@ -178,6 +180,15 @@ fn run_tape(part: &str, tape: &[u8], cx: &mut Cx) -> Res {
     match part {
         "messages" => {
             let p = gen_prefix(&mut t);
+            // what the thread encoded or decoded just before must not matter: sometimes a data message goes first
+            if t.chance(25) {
+                let d = gen_data_small(&mut t);
+                let _ = crate_encode_msg(&d);
+                if t.chance(50) {
+                    let _ = crate_decode(&encode_message(&d), STRICT);
+                }
+                cx.class("a data message was encoded on the same thread just before");
+            }
             check_message(&gen_control(&mut t), &p, "messages", cx)
         }
         "bigmessages" => {
